@@ -571,6 +571,11 @@ func (cg *coreGen) TopStmt() Stmt {
 func (cg *coreGen) markStmt() Stmt {
 	cg.marks++
 	g := cg.g
+	if g.Chance(1, 6) {
+		// literals from a small shared pool (strings and floats are constants
+		// of the code object; rejected pieces draw from the same pool)
+		return Stmt{Src: fmt.Sprintf("mark(%d, len(%s) + int(%s))", cg.marks, poolString(g), poolFloat(g))}
+	}
 	if g.Chance(1, 3) {
 		// attribute (method) uses: each name is a slot in the code's name table
 		switch g.Intn(7) {
@@ -617,3 +622,9 @@ func (cg *coreGen) Program(n int) []Stmt {
 	}
 	return out
 }
+
+var litStrings = []string{"lit-a", "lit-bb", "lit-ccc", "ghost", "second", "third-one", "z9"}
+var litFloats = []string{"2.5", "1.5", "0.25", "7.75", "3.125"}
+
+func poolString(g *sim.Stream) string { return fmt.Sprintf("%q", litStrings[g.Intn(len(litStrings))]) }
+func poolFloat(g *sim.Stream) string  { return litFloats[g.Intn(len(litFloats))] }
